@@ -126,6 +126,11 @@ where
     fn domain(v: u64) -> u64 {
         v
     }
+    /// `==` of the elements the two values stand for (`T: PartialEq` — what a
+    /// `Vec<T>` compares with): the identity for every type but `f64`
+    fn same(a: u64, b: u64) -> bool {
+        a == b
+    }
 }
 
 impl Elem for u8 {
@@ -253,7 +258,52 @@ impl Elem for List<u64> {
     }
 }
 
-pub const ETYPES: [&str; 6] = ["u8", "u64", "String", "Tk0", "Tk24", "List"];
+/// `f64`: a Copy element type whose `==` is NOT the comparison of its bytes —
+/// `0.0 == -0.0` with different bits, `NaN != NaN` with the same bits. The value
+/// of an element is its bit pattern (the Lean model's element `2^64 + bits`,
+/// compared with `RotoV.ListM.f64Eq`; `floats_tie` compares the two relations).
+/// A script-built `List[f64]` has an element vtable without clone function.
+impl Elem for f64 {
+    const NAME: &'static str = "f64";
+    const ROTO: &'static str = "f64";
+    const TRACKED: bool = false;
+    fn make(v: u64) -> f64 {
+        f64::from_bits(v)
+    }
+    fn val(&self) -> u64 {
+        self.to_bits()
+    }
+    fn domain(v: u64) -> u64 {
+        F64_VALS[(v % F64_VALS.len() as u64) as usize]
+    }
+    fn same(a: u64, b: u64) -> bool {
+        f64::from_bits(a) == f64::from_bits(b)
+    }
+}
+
+pub const F_Z: u64 = 0; // 0.0
+pub const F_NZ: u64 = 0x8000_0000_0000_0000; // -0.0
+pub const F_NAN: u64 = 0x7FF8_0000_0000_0000; // the quiet NaN `0.0 / 0.0` gives
+pub const F_NAN2: u64 = 0xFFF8_0000_0000_0001; // another NaN: sign and payload set
+pub const F_ONE5: u64 = 0x3FF8_0000_0000_0000; // 1.5
+/// the values a `List[f64]` history draws from, most interesting first (the
+/// generators take a prefix): both zeros, two NaNs, infinities, a subnormal
+pub const F64_VALS: [u64; 12] = [
+    F_Z,
+    F_NZ,
+    F_NAN,
+    F_ONE5,
+    F_NAN2,
+    0x7FF0_0000_0000_0000, // inf
+    0xBFF8_0000_0000_0000, // -1.5
+    1,                     // 5e-324
+    0x3FF0_0000_0000_0000, // 1.0
+    0x4000_0000_0000_0000, // 2.0
+    0xFFF0_0000_0000_0000, // -inf
+    0x8000_0000_0000_0001, // -5e-324
+];
+
+pub const ETYPES: [&str; 7] = ["u8", "u64", "String", "Tk0", "Tk24", "List", "f64"];
 
 // ---------------------------------------------------------------- operations
 
@@ -278,6 +328,47 @@ pub enum Op {
     Iter(usize),
     /// script `l.join(SEPS[k])` on a `List[String]`
     Join(usize, usize),
+    /// script `for x in l { out.push(x); if i == k { <body> } i = i + 1; }` over
+    /// the handle `h` (the function's variable `l`); the result is `out`
+    ForDo(usize, u64, Body),
+}
+
+/// what the body of a script `for` does during iteration `k`. `o` is a second
+/// variable of the function holding handle `g` (which may be the walked list).
+#[derive(Clone, Debug, PartialEq)]
+pub enum Body {
+    /// `l = o;` — the NAME the loop was written over gets another handle: not
+    /// an operation on the vector being walked
+    Rebind(usize),
+    /// `l = l + o;`
+    RebindConcat(usize),
+    /// `l = [];`
+    RebindNew,
+    /// the iterable is a field path: `for x in r.items { … r.items = o; … }`
+    RebindField(usize),
+    /// `o.push(v);` — an operation on a vector, seen by the loop when it is the walked one
+    Push(usize, u64),
+    /// `o.swap(i, j);`
+    Swap(usize, u64, u64),
+}
+
+impl Body {
+    fn text(&self) -> String {
+        match self {
+            Body::Rebind(g) => format!("r:{g}"),
+            Body::RebindConcat(g) => format!("c:{g}"),
+            Body::RebindNew => "n".into(),
+            Body::RebindField(g) => format!("f:{g}"),
+            Body::Push(g, v) => format!("p:{g}:{v}"),
+            Body::Swap(g, i, j) => format!("s:{g}:{i}:{j}"),
+        }
+    }
+    pub fn other(&self) -> Option<usize> {
+        match self {
+            Body::Rebind(g) | Body::RebindConcat(g) | Body::RebindField(g) | Body::Push(g, _) | Body::Swap(g, _, _) => Some(*g),
+            Body::RebindNew => None,
+        }
+    }
 }
 
 /// who issues the operation
@@ -311,6 +402,12 @@ impl Op {
             Op::ToVec(_) => "to_vec",
             Op::Iter(_) => "iter",
             Op::Join(..) => "join",
+            Op::ForDo(_, _, Body::Rebind(_)) => "for-rebind",
+            Op::ForDo(_, _, Body::RebindConcat(_)) => "for-rebind-concat",
+            Op::ForDo(_, _, Body::RebindNew) => "for-rebind-new",
+            Op::ForDo(_, _, Body::RebindField(_)) => "for-rebind-field",
+            Op::ForDo(_, _, Body::Push(..)) => "for-push",
+            Op::ForDo(_, _, Body::Swap(..)) => "for-swap",
         }
     }
     /// what the issuer really runs: a script collects with a `for` loop
@@ -346,12 +443,15 @@ impl Op {
                 "j:{h}:{}",
                 SEPS[*k].bytes().map(|b| b.to_string()).collect::<Vec<_>>().join(",")
             ),
+            // not one operation of the model: see `Case::lean_marked`
+            Op::ForDo(..) => "fb".into(),
         }
     }
     fn text(&self, via: Via) -> String {
         let base = match self {
             Op::Eq(a, b) => format!("=:{a}:{b}"),
             Op::Join(h, k) => format!("j:{h}:{k}"),
+            Op::ForDo(h, k, b) => format!("fb:{h}:{k}:{}", b.text()),
             o => o.lean(Via::Rust),
         };
         match via {
@@ -394,6 +494,12 @@ impl Op {
             ("it", 2) => Op::Iter(h(1)?),
             ("j", 2) => Op::Join(h(1)?, 0),
             ("j", 3) => Op::Join(h(1)?, h(2).filter(|k| *k < SEPS.len())?),
+            ("fb", 5) if p[3] == "r" => Op::ForDo(h(1)?, n(2)?, Body::Rebind(h(4)?)),
+            ("fb", 5) if p[3] == "c" => Op::ForDo(h(1)?, n(2)?, Body::RebindConcat(h(4)?)),
+            ("fb", 4) if p[3] == "n" => Op::ForDo(h(1)?, n(2)?, Body::RebindNew),
+            ("fb", 5) if p[3] == "f" => Op::ForDo(h(1)?, n(2)?, Body::RebindField(h(4)?)),
+            ("fb", 6) if p[3] == "p" => Op::ForDo(h(1)?, n(2)?, Body::Push(h(4)?, n(5)?)),
+            ("fb", 7) if p[3] == "s" => Op::ForDo(h(1)?, n(2)?, Body::Swap(h(4)?, n(5)?, n(6)?)),
             _ => return None,
         };
         Some((op, via))
@@ -417,6 +523,10 @@ impl Op {
             | Op::ToVec(h)
             | Op::Iter(h)
             | Op::Join(h, _) => (vec![h], None),
+            Op::ForDo(h, _, ref b) => match b.other() {
+                Some(g) => (vec![h, g], None),
+                None => (vec![h], None),
+            },
         }
     }
 }
@@ -432,10 +542,105 @@ impl Case {
         self.ops.iter().map(|(o, v)| o.text(*v)).collect::<Vec<_>>().join(" ")
     }
     fn lean(&self, size: usize) -> String {
+        let f = if self.etype == "f64" { "f" } else { "" };
         format!(
-            "c15 run {size} {NSLOTS} {}",
+            "c15 run{f} {size} {NSLOTS} {}",
             self.ops.iter().map(|(o, v)| o.lean(*v)).collect::<Vec<_>>().join(" ")
         )
+    }
+    fn has_loops(&self) -> bool {
+        self.ops.iter().any(|(o, _)| matches!(o, Op::ForDo(..)))
+    }
+    /// A history with script loops that have a body, for the model: a loop is
+    /// not one operation of the model but what the lowering of `for` makes of
+    /// it — the function's variables `l` (slot 4) and `o` (slot 5) are clones of
+    /// the handles passed in, the loop keeps its OWN clone of `l` (slot 3) made
+    /// once before the first iteration, every iteration is `get(<slot 3>, i)`
+    /// until `None`, the body works on the variables, and all three are dropped
+    /// at the end. Every operation is followed by the dump marker `!`. Returns
+    /// the request and, per operation, how many result records it has.
+    fn lean_marked(&self, size: usize) -> (String, Vec<usize>) {
+        let f = if self.etype == "f64" { "f" } else { "" };
+        let mut toks: Vec<String> = vec![];
+        let mut plan = vec![];
+        let mut rf = Reference::new(|a, b| a == b);
+        for (op, via) in &self.ops {
+            match op {
+                Op::ForDo(h, k, body) => {
+                    let n = rf.walk_len(*h, *k, body);
+                    let mut t = vec![format!("c:4:{h}")];
+                    if let Some(g) = body.other() {
+                        t.push(format!("c:5:{g}"));
+                    }
+                    let b = match body {
+                        Body::Rebind(_) | Body::RebindField(_) => "c/4/5".to_string(),
+                        Body::RebindConcat(_) => "+/4/4/5".to_string(),
+                        Body::RebindNew => "n/4".to_string(),
+                        Body::Push(_, v) => format!("p/5/{v}"),
+                        Body::Swap(_, i, j) => format!("s/5/{i}/{j}"),
+                    };
+                    // the loop itself is expanded by the model (`RotoV.ListM.forOps`, which follows
+                    // the lowering facts generated from src/mir/lower.rs): the loop's own handle,
+                    // one `get` per iteration and the one that answers `None`, the body, the drop
+                    t.push(format!("for:3:4:{n}:{k}:{b}"));
+                    let pre = t.len() - 1;
+                    let in_loop = 1 + (n as usize + 1) + usize::from(*k < n) + 1;
+                    t.push("d:4".into());
+                    if body.other().is_some() {
+                        t.push("d:5".into());
+                    }
+                    let post = t.len() - pre - 1;
+                    plan.push(pre + in_loop + post);
+                    toks.extend(t);
+                }
+                o => {
+                    plan.push(1);
+                    toks.push(o.lean(*via));
+                }
+            }
+            toks.push("!".into());
+            rf.step(op);
+        }
+        (format!("c15 runm{f} {size} {} {}", NSLOTS + 3, toks.join(" ")), plan)
+    }
+    /// the model's records of a marked run, one per operation of the history
+    fn read_marked(&self, plan: &[usize], ans: &str) -> Option<Vec<Rec>> {
+        let mut it = ans.split('|');
+        let mut recs = vec![];
+        for ((op, _), n) in self.ops.iter().zip(plan) {
+            let outs: Vec<&str> = (0..*n).map(|_| it.next()).collect::<Option<Vec<_>>>()?;
+            let dump = it.next()?.strip_prefix('!')?;
+            let (slots_s, live_s) = dump.split_once(';')?;
+            let all: Vec<&str> = slots_s.split('/').collect();
+            let tail_clean = all.iter().skip(NSLOTS).all(|x| *x == "-");
+            let out = match op {
+                Op::ForDo(..) => {
+                    // the elements the `get`s returned, up to the first `None`
+                    let gets: Vec<&str> = outs.iter().copied().filter(|o| o.starts_with('o')).collect();
+                    let mut vals = vec![];
+                    let mut ended = false;
+                    for g in &gets {
+                        if *g == "o-" {
+                            ended = true;
+                            break;
+                        }
+                        vals.push(g[1..].to_string());
+                    }
+                    let faults: Vec<&str> = outs.iter().copied().filter(|o| o.starts_with("F:")).collect();
+                    if !faults.is_empty() {
+                        faults[0].to_string()
+                    } else if !ended || !tail_clean {
+                        format!("v{}+unfinished", vals.join(","))
+                    } else {
+                        format!("v{}", vals.join(","))
+                    }
+                }
+                _ => outs[0].to_string(),
+            };
+            let head = all.iter().take(NSLOTS).copied().collect::<Vec<_>>().join("/");
+            recs.push(parse_rec(&format!("{out};{head};{live_s}"))?);
+        }
+        Some(recs)
     }
     fn json(&self) -> serde_json::Value {
         json!({"etype": self.etype, "ops": self.text()})
@@ -463,6 +668,10 @@ impl Case {
                 bound[d] = true;
             }
             if matches!(op, Op::Join(..)) && (self.etype != "String" || *via != Via::Script) {
+                return false;
+            }
+            // a loop with a body exists in scripts only
+            if matches!(op, Op::ForDo(..)) && *via != Via::Script {
                 return false;
             }
         }
@@ -517,14 +726,80 @@ fn parse_rec(s: &str) -> Option<Rec> {
 
 type RefList = Rc<RefCell<Vec<u64>>>;
 
-#[derive(Default)]
+/// an element of the reference vectors as `Vec`'s own `==` / `contains` see it:
+/// `PartialEq` is the element type's (`Elem::same`)
+#[derive(Clone, Copy)]
+struct W(u64, fn(u64, u64) -> bool);
+impl PartialEq for W {
+    fn eq(&self, o: &W) -> bool {
+        (self.1)(self.0, o.0)
+    }
+}
+
 struct Reference {
     slots: Vec<Option<RefList>>,
+    same: fn(u64, u64) -> bool,
 }
 
 impl Reference {
-    fn new() -> Self {
-        Reference { slots: vec![None; NSLOTS] }
+    fn new(same: fn(u64, u64) -> bool) -> Self {
+        Reference { slots: vec![None; NSLOTS], same }
+    }
+    fn typed(&self, h: usize) -> Vec<W> {
+        self.get(h).borrow().iter().map(|x| W(*x, self.same)).collect()
+    }
+    /// both handles hold the same vector and it has an element that is not equal to itself
+    fn same_vector_with_nan(&self, a: usize, b: usize) -> bool {
+        let (x, y) = (self.get(a), self.get(b));
+        Rc::ptr_eq(&x, &y) && x.borrow().iter().any(|e| !(self.same)(*e, *e))
+    }
+    /// the script loop `for x in <h> { out.push(x); if i == k { body } i += 1 }` on
+    /// shared vectors: the loop walks, by index, the ONE vector `h` referred to
+    /// when it started; assignments to the variable are not operations on it
+    fn walk(&mut self, h: usize, k: u64, body: &Body) -> Vec<u64> {
+        let walked = self.get(h);
+        let mut out = vec![];
+        let mut i = 0u64;
+        loop {
+            let x = walked.borrow().get(i as usize).copied();
+            let Some(x) = x else { break };
+            out.push(x);
+            if i == k {
+                match body {
+                    Body::Rebind(_) | Body::RebindConcat(_) | Body::RebindNew | Body::RebindField(_) => {}
+                    Body::Push(g, v) => self.get(*g).borrow_mut().push(*v),
+                    Body::Swap(g, a, b) => {
+                        let l = self.get(*g);
+                        let mut v = l.borrow_mut();
+                        let (a, b) = (*a as usize, *b as usize);
+                        if a < v.len() && b < v.len() {
+                            v.swap(a, b);
+                        }
+                    }
+                }
+            }
+            i += 1;
+        }
+        out
+    }
+    /// how many elements that loop visits (on a copy: nothing changes)
+    fn walk_len(&self, h: usize, k: u64, body: &Body) -> u64 {
+        let mut copy = Reference { slots: vec![], same: self.same };
+        // same aliasing structure, copied vectors
+        let mut seen: Vec<(*const RefCell<Vec<u64>>, RefList)> = vec![];
+        for s in &self.slots {
+            copy.slots.push(s.as_ref().map(|l| {
+                let p = Rc::as_ptr(l);
+                if let Some((_, c)) = seen.iter().find(|(q, _)| *q == p) {
+                    c.clone()
+                } else {
+                    let c = Rc::new(RefCell::new(l.borrow().clone()));
+                    seen.push((p, c.clone()));
+                    c
+                }
+            }));
+        }
+        copy.walk(h, k, body).len() as u64
     }
     fn get(&self, h: usize) -> RefList {
         self.slots[h].clone().expect("bound")
@@ -571,17 +846,20 @@ impl Reference {
                 self.slots[*d] = Some(Rc::new(RefCell::new(v)));
                 "u".into()
             }
-            Op::Contains(h, v) => format!("b{}", self.get(*h).borrow().contains(v) as u8),
+            // `Vec<T>::contains`, `iter().position`, `Vec<T> == Vec<T>` with T's own `==`
+            Op::Contains(h, v) => format!("b{}", self.typed(*h).contains(&W(*v, self.same)) as u8),
             Op::Index(h, v) => {
-                show_opt(self.get(*h).borrow().iter().position(|x| x == v).map(|i| i as u64))
+                let w = W(*v, self.same);
+                show_opt(self.typed(*h).iter().position(|x| *x == w).map(|i| i as u64))
             }
-            Op::Eq(a, b) => format!("b{}", (*self.get(*a).borrow() == *self.get(*b).borrow()) as u8),
+            Op::Eq(a, b) => format!("b{}", (self.typed(*a) == self.typed(*b)) as u8),
             Op::ToVec(h) | Op::Iter(h) => format!("v{}", nats(&self.get(*h).borrow())),
             // the property: `Vec<String>::join` of the same strings
             Op::Join(h, k) => {
                 let v: Vec<String> = self.get(*h).borrow().iter().map(|x| elem_string(*x)).collect();
                 show_str(&v.join(SEPS[*k]))
             }
+            Op::ForDo(h, k, body) => format!("v{}", nats(&self.walk(*h, *k, body))),
         }
     }
     fn observe(&self, out: String) -> Rec {
@@ -608,6 +886,8 @@ impl Reference {
 
 // ---------------------------------------------------------------- the implementation
 
+/// case indices below this one report the known deviation `nan-same-list` (the boundary stream; everything for a single-case run)
+static REPORT_KNOWN_BELOW: AtomicU64 = AtomicU64::new(u64::MAX);
 static OP_STARTED_MS: AtomicU64 = AtomicU64::new(0);
 static OP_INDEX: AtomicU64 = AtomicU64::new(0);
 static CASE_INDEX: AtomicU64 = AtomicU64::new(0);
@@ -725,7 +1005,7 @@ where
                 }
                 format!("v{}", nats(&v))
             }
-            Op::Join(..) => "unsupported".into(),
+            Op::Join(..) | Op::ForDo(..) => "unsupported".into(),
         }
     }
     fn observe(&self, out: String) -> Rec {
@@ -758,7 +1038,7 @@ where
     let live0 = T::live();
     let bad0 = BAD.load(Ordering::SeqCst);
     let mut imp = Impl::<T>::new(funcs.take());
-    let mut rf = Reference::new();
+    let mut rf = Reference::new(T::same);
     let mut recs = vec![];
     let mut failed = false;
     for (k, (op, via)) in case.ops.iter().enumerate() {
@@ -771,8 +1051,32 @@ where
         if let Some(l) = got.live.as_mut() {
             *l -= live0;
         }
+        // `l == l` for a list holding a NaN: both `==` answer `true` without looking
+        // (`Arc::ptr_eq`), a vector compared with itself is `false`. A genuine
+        // deviation (Lean: `eq_same_list_nan_differs`), reported under its own key,
+        // a few times per worker; the history goes on being compared after it.
+        let refl_nan = matches!(op, Op::Eq(a, b) if rf.same_vector_with_nan(*a, *b));
         let want_out = rf.step(op);
-        let want = rf.observe(want_out);
+        let mut want = rf.observe(want_out);
+        if refl_nan && got.out == "b1" && want.out == "b0" {
+            // reported from the class representatives (and a replay) only: the enumerated and
+            // random histories meet it thousands of times and would fill the report
+            if idx < REPORT_KNOWN_BELOW.load(Ordering::SeqCst) {
+                let via_s = if *via == Via::Script { "script" } else { "rust" };
+                let mut cut = case.clone();
+                cut.ops.truncate(k + 1);
+                rep.violation(
+                    &format!(
+                        "step {k} `{}` of a {} list: the list holds a NaN and is compared with itself: true, but a vector compared with itself gives false (no element is looked at when both operands are the same Arc)",
+                        op.text(*via),
+                        case.etype
+                    ),
+                    &format!("vec:{}:eq:{via_s}:nan-same-list", case.etype),
+                    json!({"case": cut.json(), "step": k, "got": got.out, "want": want.out}),
+                );
+            }
+            want.out = got.out.clone();
+        }
         if !failed {
             if let Some(what) = disagree(&got, &want, op) {
                 failed = true;
@@ -819,6 +1123,11 @@ where
     (recs, failed)
 }
 
+/// the reflexive-shortcut deviation (reported, but the history is not cut there)
+fn is_known_deviation(v: &serde_json::Value) -> bool {
+    v["key"].as_str().is_some_and(|k| k.ends_with(":nan-same-list"))
+}
+
 /// first violation key of running `case` (on a scratch report)
 fn first_key<T: Elem>(idx: u64, case: &Case, funcs: &mut Option<script::Funcs<T>>) -> Option<(String, Option<usize>)>
 where
@@ -826,7 +1135,7 @@ where
 {
     let mut tmp = Report::default();
     let _ = run_case::<T>(idx, case, funcs, &mut tmp);
-    let v = tmp.impl_violations.first()?;
+    let v = tmp.impl_violations.iter().find(|v| !is_known_deviation(v))?;
     Some((
         v["key"].as_str().unwrap_or("").to_string(),
         v["input"]["step"].as_u64().map(|k| k as usize),
@@ -847,17 +1156,21 @@ where
 {
     let mut tmp = Report::default();
     let (recs, failed) = run_case::<T>(idx, case, funcs, &mut tmp);
-    if !failed || case.ops.len() <= 4 {
+    let first_real = tmp.impl_violations.iter().position(|v| !is_known_deviation(v));
+    let (true, true, Some(first_real)) = (failed, case.ops.len() > 4, first_real) else {
         for v in tmp.impl_violations {
             if rep.impl_violations.len() < 200 {
                 rep.impl_violations.push(v);
             }
         }
         return (recs, failed);
+    };
+    for v in tmp.impl_violations.iter().filter(|v| is_known_deviation(v)) {
+        rep.impl_violations.push(v.clone());
     }
-    let key = tmp.impl_violations[0]["key"].as_str().unwrap_or("").to_string();
+    let key = tmp.impl_violations[first_real]["key"].as_str().unwrap_or("").to_string();
     let mut cur = case.clone();
-    if let Some(k) = tmp.impl_violations[0]["input"]["step"].as_u64() {
+    if let Some(k) = tmp.impl_violations[first_real]["input"]["step"].as_u64() {
         cur.ops.truncate(k as usize + 1);
     }
     let mut budget = 400;
@@ -898,7 +1211,7 @@ where
         }
     }
     if !pushed {
-        for v in tmp.impl_violations {
+        for v in tmp.impl_violations.into_iter().filter(|v| !is_known_deviation(v)) {
             rep.impl_violations.push(v);
         }
     }
@@ -981,6 +1294,8 @@ fn alphabet(ns: usize) -> Vec<Op> {
         a.push(Op::Contains(d, 2));
         a.push(Op::Index(d, 2));
         a.push(Op::Iter(d));
+        // a script loop over `d` whose body gives the variable another handle after the first element
+        a.push(Op::ForDo(d, 0, Body::Rebind((d + 1) % ns)));
         for s in 0..ns {
             if s != d {
                 a.push(Op::CloneH(d, s));
@@ -1014,12 +1329,27 @@ fn string_alphabet(ns: usize) -> Vec<Op> {
     a
 }
 
+/// the alphabet for lists of `f64`: value 1 is `0.0`, value 2 is `-0.0` (equal,
+/// other bits), and the two-element list is `[0.0, NaN]` (same bits, not equal)
+fn f64_values(op: Op) -> Op {
+    let z = |v: u64| if v == 2 { F_NZ } else { F_Z };
+    match op {
+        Op::FromVec(d, _) => Op::FromVec(d, vec![F_Z, F_NAN]),
+        Op::Push(h, v) => Op::Push(h, z(v)),
+        Op::Contains(h, v) => Op::Contains(h, z(v)),
+        Op::Index(h, v) => Op::Index(h, z(v)),
+        Op::ForDo(h, k, Body::Push(g, v)) => Op::ForDo(h, k, Body::Push(g, z(v))),
+        o => o,
+    }
+}
+
 fn zero_values(op: Op) -> Op {
     match op {
         Op::FromVec(d, xs) => Op::FromVec(d, xs.iter().map(|_| 0).collect()),
         Op::Push(h, _) => Op::Push(h, 0),
         Op::Contains(h, _) => Op::Contains(h, 0),
         Op::Index(h, _) => Op::Index(h, 0),
+        Op::ForDo(h, k, Body::Push(g, _)) => Op::ForDo(h, k, Body::Push(g, 0)),
         o => o,
     }
 }
@@ -1035,6 +1365,7 @@ fn random_case(etype: &'static str, seed: u64, idx: u64, via_mode: u64) -> Case 
     let val = |p: &mut Prng| -> u64 {
         match etype {
             "Tk0" => 0,
+            "f64" => F64_VALS[p.below(vmax.min(F64_VALS.len() as u64)) as usize],
             "u8" => p.below(vmax.min(255)) + if p.chance(1, 20) { 200 } else { 0 },
             _ => p.below(vmax),
         }
@@ -1128,6 +1459,24 @@ fn random_case(etype: &'static str, seed: u64, idx: u64, via_mode: u64) -> Case 
             op
         };
         let op = if etype == "Tk0" && via == Via::Script && known_tk0_for(&op) { Op::Len(h) } else { op };
+        // script loops with a body: the variable is rebound / the walked list is changed through an alias
+        let op = if via == Via::Script && matches!(op, Op::Len(_) | Op::Capacity(_) | Op::IsEmpty(_) | Op::ToVec(_) | Op::Iter(_)) && p.chance(1, 2) {
+            let k = p.below(lens[h].max(1) + 1);
+            let body = match p.below(8) {
+                0 | 1 => Body::Rebind(h2),
+                2 => Body::RebindConcat(h2),
+                3 => Body::RebindNew,
+                4 => Body::RebindField(h2),
+                5 | 6 => {
+                    lens[h2] += 1;
+                    Body::Push(h2, val(&mut p))
+                }
+                _ => Body::Swap(h2, idx(&mut p, lens[h2]), idx(&mut p, lens[h2])),
+            };
+            Op::ForDo(h, k, body)
+        } else {
+            op
+        };
         ops.push((op, via));
     }
     Case { etype, ops }
@@ -1213,6 +1562,54 @@ fn boundary_cases(etype: &'static str) -> Vec<Case> {
             texts.push(format!("n:0{at} p:0:0{at} p:0:0{at} l:0{at} e:0{at} ?:0:0{at} i:0:0{at} ?:0:1{at} +:1:0:0{at} v:1{at} s:1:0:3{at} g:1:3{at}"));
         }
     }
+    if script::AVAILABLE {
+        // script loops with a body: the NAME the loop is written over is given another
+        // handle while the loop runs (a variable, a parameter, a field path; another list,
+        // a concatenation, a new list) — the loop goes on walking the vector it started
+        // on; a push / swap through an alias of the walked list IS seen. Lists built by
+        // Rust and by the script, rebinding in the first / a middle / the last iteration.
+        // (one kind of body per history: a history is cut at its first failing step)
+        for at in ["", "@s"] {
+            let a = format!("f:0:{},{},{},{}{at} f:1:{},{},{},{},{},{}{at}", v(1), v(2), v(3), v(4), v(7), v(7), v(7), v(7), v(7), v(7));
+            let b = format!("f:0:{},{},{}{at} f:1:{},{}{at}", v(1), v(2), v(3), v(8), v(9));
+            // `l = o` in a middle / the first / the last iteration, the other way round, in no iteration
+            texts.push(format!("{a} fb:0:1:r:1@s fb:0:0:r:1@s fb:0:3:r:1@s fb:1:2:r:0@s fb:0:9:r:1@s v:0 v:1"));
+            // `l = l + o`, `l = l + l`
+            texts.push(format!("{b} fb:0:0:c:1@s fb:0:1:c:0@s fb:1:1:c:0@s l:0 l:1"));
+            // `l = []`
+            texts.push(format!("{b} fb:0:0:n@s fb:0:2:n@s fb:1:1:n@s l:0 l:1"));
+            // the iterable is a field path: `r.items = o`
+            texts.push(format!("{b} fb:0:1:f:1@s fb:1:0:f:0@s fb:0:2:f:0@s l:0 l:1"));
+            // push / swap through an alias of the walked list, through the walked list itself, through another list
+            texts.push(format!(
+                "f:0:{},{},{}{at} c:1:0 f:2:{}{at} fb:0:0:p:1:{}@s fb:0:1:p:0:{}@s fb:0:1:p:2:{}@s fb:0:0:s:1:0:2@s fb:1:1:s:0:0:9@s fb:2:0:r:2@s v:0 v:2",
+                v(1), v(2), v(3), v(5), v(4), v(5), v(6)
+            ));
+            // the empty list, a singleton, rebinding to the empty list
+            texts.push(format!("n:0{at} f:1:{}{at} fb:0:0:r:1@s fb:1:0:r:0@s fb:1:0:c:1@s fb:0:0:p:0:{}@s fb:0:0:r:1@s", v(1), v(2)));
+        }
+    }
+    if etype == "f64" {
+        // element `==` that is not the comparison of the bytes: 0.0 == -0.0 (other bits),
+        // NaN != NaN (same bits) — for `==` of distinct lists in both directions, `contains`,
+        // `index`; lists built by Rust (clone function present) and by a script (literal,
+        // `List.new` + push, a concatenation: no clone function), as left and as right operand
+        for at in ["", "@s"] {
+            texts.push(format!("f:0:{F_Z}{at} f:1:{F_NZ}{at} =:0:1{at} =:1:0{at} ?:0:{F_NZ}{at} i:1:{F_Z}{at} g:1:0{at} g:0:0{at} v:1{at}"));
+            texts.push(format!("f:0:{F_NAN}{at} f:1:{F_NAN}{at} =:0:1{at} =:1:0{at} ?:0:{F_NAN}{at} i:0:{F_NAN}{at} g:0:0{at} v:0{at} it:1{at}"));
+            texts.push(format!(
+                "f:0:{F_ONE5},{F_Z},{F_NAN2}{at} f:1:{F_ONE5},{F_NZ},{F_NAN2}{at} =:0:1{at} f:2:{F_ONE5},{F_NZ}{at} f:1:{F_ONE5},{F_Z}{at} =:1:2{at} =:2:1{at} i:2:{F_Z}{at} ?:2:{F_NAN}{at} ?:0:{F_NAN2}{at} i:0:{F_NAN2}{at} +:0:1:2{at} i:0:{F_NZ}{at}"
+            ));
+            texts.push(format!("n:0{at} p:0:{F_NZ}{at} n:1{at} p:1:{F_Z}{at} =:0:1{at} n:2{at} +:2:0:2{at} =:2:1{at} =:1:2{at} p:2:{F_NAN}{at} p:1:{F_NAN}{at} =:2:1{at}"));
+        }
+        // one side built by a script, the other by Rust, compared by both issuers
+        texts.push(format!("f:0:{F_Z}@s f:1:{F_NZ} =:0:1@s =:1:0@s =:0:1 =:1:0 f:0:{F_NAN},{F_Z}@s f:1:{F_NAN},{F_Z} =:0:1@s =:1:0@s =:0:1 =:1:0"));
+        texts.push(format!("f:0:{F_Z},{F_Z},{F_Z}@s f:1:{F_NZ},{F_Z},{F_NZ}@s =:0:1@s c:2:1@s =:2:0@s s:2:0:1@s =:0:2@s i:1:{F_Z}@s ?:0:{F_NZ}@s"));
+        // the known deviation: a list holding a NaN compared with itself (same handle, an alias)
+        for at in ["", "@s"] {
+            texts.push(format!("f:0:{F_NAN}{at} c:1:0 =:0:1{at} =:0:0{at} f:2:{F_NAN}{at} =:0:2{at}"));
+        }
+    }
     if etype == "String" && script::AVAILABLE {
         // join: the empty list, singletons, empty strings leading / trailing / only /
         // interleaved / repeated, elements equal to or containing the separator,
@@ -1287,12 +1684,19 @@ fn space(tier: &str) -> &'static Space {
                 let alpha: Vec<Op> = if et == "String" {
                     string_alphabet(ns)
                 } else {
-                    alphabet(ns).into_iter().map(|o| if et == "Tk0" { zero_values(o) } else { o }).collect()
+                    alphabet(ns)
+                        .into_iter()
+                        .map(|o| match et {
+                            "Tk0" => zero_values(o),
+                            "f64" => f64_values(o),
+                            _ => o,
+                        })
+                        .collect()
                 };
                 let size = (alpha.len() as u64).pow(len as u32);
                 for &vm in &via_modes {
                     // script / alternating enumeration only for the shorter blocks
-                    if vm != 0 && size > if tier == "thorough" { 44_000_000 } else { 600_000 } {
+                    if vm != 0 && size > if tier == "thorough" { 50_000_000 } else { 600_000 } {
                         continue;
                     }
                     let uses = alpha
@@ -1329,7 +1733,7 @@ impl Block {
                 return None;
             }
             // `join` exists on the script side only
-            if matches!(self.alpha[d], Op::Join(..)) && via_of(self.via_mode, i) != Via::Script {
+            if matches!(self.alpha[d], Op::Join(..) | Op::ForDo(..)) && via_of(self.via_mode, i) != Via::Script {
                 return None;
             }
             if let Some(h) = unbinds {
@@ -1408,11 +1812,12 @@ struct Runner {
     f_tk0: Option<script::Funcs<Val<Tk0>>>,
     f_tk24: Option<script::Funcs<Val<Tk24>>>,
     f_list: Option<script::Funcs<List<u64>>>,
+    f_f64: Option<script::Funcs<f64>>,
 }
 
 impl Runner {
     fn new() -> Self {
-        Runner { f_u8: None, f_u64: None, f_str: None, f_tk0: None, f_tk24: None, f_list: None }
+        Runner { f_u8: None, f_u64: None, f_str: None, f_tk0: None, f_tk24: None, f_list: None, f_f64: None }
     }
     fn run(&mut self, idx: u64, case: &Case, rep: &mut Report) -> (usize, Vec<Rec>, bool) {
         let needs_script = case.ops.iter().any(|(_, v)| *v == Via::Script);
@@ -1432,6 +1837,7 @@ impl Runner {
             "Tk0" => go!(Val<Tk0>, &mut self.f_tk0),
             "Tk24" => go!(Val<Tk24>, &mut self.f_tk24),
             "List" => go!(List<u64>, &mut self.f_list),
+            "f64" => go!(f64, &mut self.f_f64),
             other => panic!("element type {other}"),
         }
     }
@@ -1528,7 +1934,8 @@ fn worker_cases(seed: u64, tier: &str, from: u64, n: u64) {
     start_watchdog();
     let mut rep = Report::default();
     let mut runner = Runner::new();
-    let mut pending: Vec<(Case, Vec<Rec>, String)> = vec![];
+    let mut pending: Vec<Pending> = vec![];
+    REPORT_KNOWN_BELOW.store(space(tier).boundary.len() as u64, Ordering::SeqCst);
     for idx in from..from + n {
         let Some(c) = case_at(seed, tier, idx) else { break };
         let Some(case) = c else { continue };
@@ -1545,14 +1952,29 @@ fn worker_cases(seed: u64, tier: &str, from: u64, n: u64) {
         if idx % 9973 == 0 {
             rep.sample(json!({"case": case.json(), "last": format!("{:?}", recs.last())}));
         }
-        let line = case.lean(size);
-        pending.push((case, recs, line));
+        pending.push(Pending::new(case, recs, size));
     }
     compare_with_model(&mut pending, &mut rep);
     rep.emit();
 }
 
-fn compare_with_model(pending: &mut Vec<(Case, Vec<Rec>, String)>, rep: &mut Report) {
+/// a finished case waiting for the model's answer: the request and, for a
+/// history with script loops, how many records each operation has in it
+struct Pending(Case, Vec<Rec>, String, Option<Vec<usize>>);
+
+impl Pending {
+    fn new(case: Case, recs: Vec<Rec>, size: usize) -> Pending {
+        if case.has_loops() {
+            let (line, plan) = case.lean_marked(size);
+            Pending(case, recs, line, Some(plan))
+        } else {
+            let line = case.lean(size);
+            Pending(case, recs, line, None)
+        }
+    }
+}
+
+fn compare_with_model(pending: &mut Vec<Pending>, rep: &mut Report) {
     if pending.is_empty() {
         return;
     }
@@ -1576,8 +1998,11 @@ fn compare_with_model(pending: &mut Vec<(Case, Vec<Rec>, String)>, rep: &mut Rep
         }
     }
     answers.extend(drv.ask_all(&chunk));
-    for ((case, recs, _), ans) in pending.iter().zip(answers) {
-        let model: Option<Vec<Rec>> = ans.split('|').map(parse_rec).collect();
+    for (Pending(case, recs, _, plan), ans) in pending.iter().zip(answers) {
+        let model: Option<Vec<Rec>> = match plan {
+            Some(plan) => case.read_marked(plan, &ans),
+            None => ans.split('|').map(parse_rec).collect(),
+        };
         let Some(model) = model else {
             rep.mismatch(&format!("driver answer unreadable: {}", &ans[..ans.len().min(200)]), case.json());
             continue;
@@ -1621,6 +2046,35 @@ fn strings_tie(rep: &mut Report) {
     }
 }
 
+/// `==` on the `f64` values the histories use is the same relation here (Rust's
+/// `f64 == f64`) and in the Lean model (`elemEq` on `2^64 + bits`), for every pair
+fn floats_tie(rep: &mut Report) {
+    let mut drv = Driver::spawn().expect("spawn rotov-driver");
+    let mut vals: Vec<u64> = F64_VALS.to_vec();
+    vals.extend([0x7FF0_0000_0000_0001, 0x7FEF_FFFF_FFFF_FFFF, 0xFFFF_FFFF_FFFF_FFFF, 0x7FFF_FFFF_FFFF_FFFF, 0x000F_FFFF_FFFF_FFFF, 0x0010_0000_0000_0000]);
+    let mut asks = vec![];
+    for a in &vals {
+        for b in &vals {
+            asks.push((*a, *b, format!("c15 feq {a} {b}")));
+        }
+    }
+    let lines: Vec<String> = asks.iter().map(|x| x.2.clone()).collect();
+    let mut answers = vec![];
+    for ch in lines.chunks(24) {
+        answers.extend(drv.ask_all(&ch.to_vec()));
+    }
+    for ((a, b, _), there) in asks.iter().zip(answers) {
+        rep.evaluations += 1;
+        let here = format!("b{}", <f64 as Elem>::same(*a, *b) as u8);
+        if here != there {
+            rep.mismatch(
+                &format!("f64 bits {a:#x} == {b:#x}: {here} here, {there} in the model"),
+                json!({"a": a, "b": b}),
+            );
+        }
+    }
+}
+
 /// `worker one <etype> <ops…>`: a single given case
 fn worker_one(etype: &str, ops: &str) {
     start_watchdog();
@@ -1638,8 +2092,7 @@ fn worker_one(etype: &str, ops: &str) {
     let mut runner = Runner::new();
     let (size, recs, failed) = runner.run(0, &case, &mut rep);
     rep.evaluations += 1;
-    let line = case.lean(size);
-    let mut pending = if failed { vec![] } else { vec![(case, recs, line)] };
+    let mut pending = if failed { vec![] } else { vec![Pending::new(case, recs, size)] };
     compare_with_model(&mut pending, &mut rep);
     rep.emit();
 }
@@ -1817,6 +2270,7 @@ fn main() {
             }
             let mut rep = Report::default();
             strings_tie(&mut rep);
+            floats_tie(&mut rep);
             {
                 let (ended, out) = run_worker_keep_stdout(&["nested"], Duration::from_secs(120));
                 if let Some(v) = Report::parse_stdout(&out) {
